@@ -121,6 +121,7 @@ type ftr struct {
 	calls  map[string]string // go qualified callee -> lean name
 	results []*types.Var
 	special func(t *ftr, r *ast.ReturnStmt) (string, bool)
+	selMap  func(t *ftr, e ast.Expr) (string, bool) // maps non-subset expressions (fields, len()) to model variables
 }
 
 func width(t types.Type) int {
@@ -213,6 +214,11 @@ func isErrorType(ty types.Type) bool {
 
 // expr translates an integer-valued expression.
 func (t *ftr) expr(e ast.Expr) string {
+	if t.selMap != nil {
+		if s, ok := t.selMap(t, e); ok {
+			return s
+		}
+	}
 	if c, ok := t.constOf(e); ok {
 		if isErrorType(t.typeOf(e)) {
 			die("%s: constant error?", t.pos(e))
@@ -608,12 +614,17 @@ func leanType(ty types.Type) string {
 
 // translateFunc renders one Go function as a Lean def; returns (leanName, text).
 func translateFunc(l *loader, p *pkgInfo, fd *ast.FuncDecl, masks map[uint64]bool) (string, string) {
+	return translateFuncOpt(l, p, fd, masks, "", nil)
+}
+
+func translateFuncOpt(l *loader, p *pkgInfo, fd *ast.FuncDecl, masks map[uint64]bool, resType string,
+	special func(t *ftr, r *ast.ReturnStmt) (string, bool)) (string, string) {
 	fn := p.info.Defs[fd.Name].(*types.Func)
 	sig := fn.Type().(*types.Signature)
-	t := &ftr{p: p, l: l, names: map[types.Object]string{}, used: map[string]int{}, masks: masks}
+	t := &ftr{p: p, l: l, names: map[types.Object]string{}, used: map[string]int{}, masks: masks, special: special}
 	ln := leanFuncName(fn)
 	var params []string
-	if r := sig.Recv(); r != nil {
+	if r := sig.Recv(); r != nil && resType == "" {
 		params = append(params, fmt.Sprintf("(%s : %s)", t.name(r), leanType(r.Type())))
 	}
 	for i := 0; i < sig.Params().Len(); i++ {
@@ -621,10 +632,13 @@ func translateFunc(l *loader, p *pkgInfo, fd *ast.FuncDecl, masks map[uint64]boo
 		params = append(params, fmt.Sprintf("(%s : %s)", t.name(v), leanType(v.Type())))
 	}
 	var rts []string
-	for i := 0; i < sig.Results().Len(); i++ {
+	for i := 0; i < sig.Results().Len() && resType == ""; i++ {
 		v := sig.Results().At(i)
 		t.results = append(t.results, v)
 		rts = append(rts, leanType(v.Type()))
+	}
+	if resType != "" {
+		rts = []string{resType}
 	}
 	body := ""
 	for _, v := range t.results {
